@@ -6,7 +6,8 @@
 (*   op  : [t, i, op, ctx, n, b, v, k, child, r: [tag, id, exc],                               *)
 (*          obs: << per alive context: [c, get: <<[n, id]>>, iter: <<[n, id, val]>>, top,      *)
 (*                  stack: <<ids>>, sval: <<vals>>,                                            *)
-(*                  prox: <<[k, truthy, unb, repobj, id, val, cur]>>] >>]                      *)
+(*                  prox: <<[k, isproxy, truthy, unb, repobj, id, val, cur,                    *)
+(*                           fw: <<len, iter, [0], 7 in, +, hash, str>>, ag]>>] >>]            *)
 (* `obs` is what every live context reads *after* the step (getattr per name, iteration, top, *)
 (* the whole stack, and for every existing proxy: bool(), repr() is the unbound fallback,      *)
 (* repr() is the resolved object's repr, an operation forwarded through the proxy (attribute    *)
@@ -39,6 +40,24 @@ StackOK(S, e) ==
   /\ e.stack = S.stack[c]
   /\ e.sval = [i \in 1..Len(S.stack[c]) |-> S.cont[S.stack[c][i]]]
 
+SizeOrInt(cont, b) == IF KindOf(b) = "int" THEN IntVal(b) ELSE SizeOf(cont, b)
+IdsOK(ids, b) == b \in SeqSet(ids) /\ \A i \in SeqSet(ids) : i \in Boxes /\ KindOf(i) = KindOf(b)
+\* other forwarded dunders: len, iter, [0], 7 in, +, hash, str, == -- computed on the object bound
+\* in the accessing context; RuntimeError (code RTE) for each of them where nothing is bound
+\* (== is not judged there: CPython turns the failed lookup of __eq__ into NotImplemented)
+FwdOK(S, b, p) ==
+  LET f == p.fw IN      \* <<len, iter, [0], 7 in, +, hash, str>>
+  IF b = NoBox THEN /\ f[1] = RTE /\ f[3] = RTE /\ f[4] = RTE /\ f[5] = RTE /\ f[7] = RTE
+                    \* iter() and hash(): CPython's type slots swallow the RuntimeError raised while
+                    \* looking the method up and answer TypeError (not iterable / unhashable) themselves
+                    /\ f[2] \in {RTE, TYE} /\ f[6] \in {RTE, TYE}
+  ELSE /\ f[1] = SizeOf(S.cont, b) /\ f[2] = SizeOf(S.cont, b)
+       /\ f[3] = GetItemCode(S.cont, b) /\ f[4] \in InCodes(S.cont, b) /\ f[5] = AddCode(S.cont, b)
+       /\ f[6] = HashCode(b) /\ f[7] = 1
+       \* ==, str() and hash() through the proxy agree with the bound object's own (and with no
+       \* object of another kind)
+       /\ IdsOK(p.ag, b)
+
 ProxyOK(S, e) ==
   /\ {p.k : p \in SeqSet(e.prox)} = S.made
   /\ Len(e.prox) = Cardinality(S.made)
@@ -51,7 +70,9 @@ ProxyOK(S, e) ==
        /\ p.repobj = (b # NoBox)            \* otherwise repr(proxy) is the bound object's repr
        /\ p.id = b                          \* attribute read: the bound object's / RuntimeError (0)
        /\ p.cur = b                         \* _get_current_object(): the bound object / RuntimeError (0)
-       /\ p.val = (IF b = NoBox THEN 0 ELSE S.cont[b])
+       /\ p.val = (IF b = NoBox THEN 0 ELSE IF Immutable(b) THEN SizeOrInt(S.cont, b) ELSE S.cont[b])
+       /\ p.isproxy                         \* the name still holds the LocalProxy (also after +=)
+       /\ FwdOK(S, b, p)
 
 CtxClause(S, o, e) ==
   IF ~(AttrOK(S, e) /\ StackOK(S, e)) THEN
@@ -61,7 +82,8 @@ CtxClause(S, o, e) ==
         ELSE "NoLeakBetweenContexts")
   ELSE IF ~ProxyOK(S, e) THEN
        (IF \E p \in SeqSet(e.prox) : p.k \in PKinds /\ Bound(S, e.c, p.k) = NoBox
-                                      /\ (p.truthy \/ ~p.unb \/ p.id # 0 \/ p.cur # 0)
+                                      /\ (p.truthy \/ ~p.unb \/ p.id # 0 \/ p.cur # 0 \/ ~p.isproxy
+                                          \/ ~FwdOK(S, NoBox, p))
         THEN "ProxyReportsUnbound"
         \* a bound but falsy object must still be reported as bound (no RuntimeError, its own repr)
         ELSE IF \E p \in SeqSet(e.prox) : p.k \in PKinds /\ Bound(S, e.c, p.k) # NoBox
